@@ -650,6 +650,26 @@ pub fn check(prop: &str, tier_name: &str) -> i32 {
             unknown_keys -= 1;
             continue;
         }
+        if !done && prop == "C05" {
+            // not reproducible from anything the simulator controls: does the same world differ between fresh
+            // processes (addresses, ASLR, a source of nondeterminism outside the seams)? That is a violation of
+            // its own class, with the world as the replay
+            for v in cands.iter().take(3) {
+                if let Some(w) = v.worlds.last() {
+                    if let Some(code) = xproc_violation(&root, prop, std::slice::from_ref(w), &format!("{} seen during the search; the same world is observed differently in fresh processes", key)) {
+                        if code == 1 {
+                            exit = 1;
+                            reported += 1;
+                            done = true;
+                            break;
+                        }
+                    }
+                }
+            }
+            if done {
+                continue;
+            }
+        }
         if !done {
             eprintln!("HARNESS: violation {} seen during the search did not reproduce in a fresh process ({} candidates tried)", key, cands.len().min(3));
             return 2;
